@@ -696,6 +696,10 @@ def cumprod(x, axis=None, out=None, out_like=None, sizing='optimal', method='raw
         axis = kwargs['axis'] if 'axis' in kwargs else None
         precision_cast = (lambda m: np.array(m, dtype=object)) if n_frac >= _n_word_max else (lambda m: m)
         pow_vals = n_frac - np.cumsum(np.ones_like(np.array(x)), axis=axis).astype(int)  * x.n_frac
+        if np.any(pow_vals < 0):
+            # a target with fewer fractional bits than a running product has: exact rationals, rounded once by set_val()
+            conv_factors = np.array([utils.Fraction(2) ** int(p) for p in pow_vals.flatten()], dtype=object).reshape(pow_vals.shape)
+            return np.cumprod(np.asarray(x.val).astype(object), **kwargs) * conv_factors
         conv_factors = utils.int_array([2**pow_val for pow_val in precision_cast(pow_vals)])
         return np.cumprod(_accum_cast(x, x.n_word * max(x.size, 1)), **kwargs) * conv_factors
 
